@@ -19,7 +19,14 @@ try:
     demo = os.path.join(d, "demo.py")
     r0 = subprocess.run(["/venv/bin/python", "-W", "ignore", demo], cwd=wt, env=env, capture_output=True, text=True, timeout=900)
     res["demo_without_patch"] = r0.returncode
-    subprocess.run(["git", "-C", wt, "apply", os.path.join(d, "patch.diff")], check=True)
+    ap = subprocess.run(["git", "-C", wt, "apply", os.path.join(d, "patch.diff")], capture_output=True, text=True)
+    if ap.returncode != 0:
+        ap = subprocess.run(["git", "-C", wt, "apply", "--3way", os.path.join(d, "patch.diff")], capture_output=True, text=True)
+    if ap.returncode != 0:
+        res["note"] = "patch no longer applies to the current HEAD (the code it changes was repaired since): " + ap.stderr[-200:]
+        json.dump(res, open(os.path.join(d, "result.json"), "w"), indent=1)
+        print(json.dumps(res, indent=1))
+        raise SystemExit(0)
     r1 = subprocess.run(["/venv/bin/python", "-W", "ignore", demo], cwd=wt, env=env, capture_output=True, text=True, timeout=900)
     res["demo_with_patch"] = r1.returncode
     t = time.time()
